@@ -50,6 +50,10 @@ pub struct SimCtl {
     /// budget on log events; exceeded => the walker aborts the case (meter violation)
     pub event_budget: AtomicU64,
     pub budget_tripped: AtomicU64,
+    /// object-cache keys currently inside `compute`, with multiplicity (two simulated threads can
+    /// be inside compute for one key when there is no cache or after an eviction)
+    pub in_compute: Mutex<Vec<u64>>,
+    pub compute_overlap: AtomicU64,
 }
 
 impl SimCtl {
@@ -66,6 +70,8 @@ impl SimCtl {
             evicted_entries: AtomicU64::new(0),
             event_budget: AtomicU64::new(u64::MAX),
             budget_tripped: AtomicU64::new(0),
+            in_compute: Mutex::new(vec![]),
+            compute_overlap: AtomicU64::new(0),
         })
     }
     pub fn events(&self) -> u64 {
@@ -119,6 +125,25 @@ impl Drop for Release {
         sched::release_here(self.0);
     }
 }
+struct InCompute<'a>(&'a SimCtl, u64);
+impl<'a> InCompute<'a> {
+    fn enter(ctl: &'a SimCtl, k: u64) -> Self {
+        let mut v = ctl.in_compute.lock().unwrap();
+        if v.contains(&k) {
+            ctl.compute_overlap.fetch_add(1, Ordering::Relaxed);
+        }
+        v.push(k);
+        InCompute(ctl, k)
+    }
+}
+impl<'a> Drop for InCompute<'a> {
+    fn drop(&mut self) {
+        let mut v = self.0.in_compute.lock().unwrap_or_else(|e| e.into_inner());
+        if let Some(p) = v.iter().position(|&x| x == self.1) {
+            v.remove(p);
+        }
+    }
+}
 struct GuardDepth;
 impl Drop for GuardDepth {
     fn drop(&mut self) {
@@ -141,6 +166,7 @@ impl Cache<ObjVal> for SimObjCache {
                     sched::acquire_here(res);
                     let _rel = Release(res);
                     ctl.computes.fetch_add(1, Ordering::Relaxed);
+                    let _ic = InCompute::enter(ctl, k);
                     sched::yield_here(Kind::ComputeStart, k);
                     let v = compute();
                     sched::yield_here(Kind::ComputeEnd, k);
@@ -149,6 +175,7 @@ impl Cache<ObjVal> for SimObjCache {
             }
             None => {
                 ctl.computes.fetch_add(1, Ordering::Relaxed);
+                let _ic = InCompute::enter(ctl, k);
                 sched::yield_here(Kind::ComputeStart, k);
                 let v = compute();
                 sched::yield_here(Kind::ComputeEnd, k);
